@@ -4,7 +4,7 @@
  "file": "attr.c", "function": "gnuattr", "also_functions": ["gnuattrspec", "parseattr"],
  "properties": {"C10": "contract"},
  "mode": "harness",
- "unwind": 12, "unwindset": ["gnuattr.0:4", "gnuattrspec.0:4", "parseattr.0:7", "harness.0:3", "harness.1:3"],
+ "unwind": 12, "unwindset": ["gnuattr.0:5", "gnuattrspec.0:4", "parseattr.0:7", "harness.0:4", "harness.1:4"],
  "variants": {"p_p":   ["-DV_SYNTAX", "-DV_K=1", "-DV_N0=2", "-DV_E00=EL_PACKED", "-DV_E01=EL_PACKED", "-DV_N1=0", "-DV_E10=0"],
               "f_up":  ["-DV_SYNTAX", "-DV_K=1", "-DV_N0=2", "-DV_E00=EL_FOO", "-DV_E01=EL_UPACKED", "-DV_N1=0", "-DV_E10=0"],
               "fl_f":  ["-DV_SYNTAX", "-DV_K=1", "-DV_N0=2", "-DV_E00=EL_FOO_LIST", "-DV_E01=EL_FOO", "-DV_N1=0", "-DV_E10=0"]},
